@@ -54,7 +54,7 @@ fn prime_field<F: PrimeField>(out: &mut Out, rng: &mut Rng, th: bool) {
 }
 fn ext_field<F: Field>(out: &mut Out, rng: &mut Rng, tower: &str, th: bool) {
     let fd = fdesc::<F>(tower);
-    let vals = edge_ext::<F>(rng, if th { 80 } else { 3 * F::extension_degree() as usize + 12 });
+    let vals = edge_ext::<F>(rng, if th { 80 } else { (3 * F::extension_degree() as usize + 12).min(30) });
     field_suite::<F>(out, rng, &fd, &vals, if th { 30 } else { 8 }, 0, if th { 4 } else { 1 });
 }
 
@@ -132,34 +132,49 @@ fn toy_te<P: te::TECurveConfig>(out: &mut Out, name: &str, order: u64, th: bool)
     let off: Vec<_> = pts.iter().cloned().take(if th { 400 } else { 24 }).collect();
     te_offcurve_ops::<P>(out, &fd, &off);
 }
-fn ship_sw<P: sw::SWCurveConfig>(out: &mut Out, rng: &mut Rng, n: usize, tw: &str, h1: Option<&str>) {
+/// `budget`: number of checked-mode lines (each costs the driver one or two scalar multiplications by `r`)
+fn ship_sw<P: sw::SWCurveConfig>(out: &mut Out, rng: &mut Rng, n: usize, tw: &str, h1: Option<&str>, budget: i64) {
+    set_budget(budget);
     let fd = fdesc::<P::BaseField>(tw);
     let cd = match h1 { Some(h) => sw_desc_with::<P>(&fd, h), None => sw_desc::<P>(&fd) };
     let cd = cd.as_str();
     let (sub, other) = sw_sample::<P>(rng, n);
     let lam = vec![rand_field::<P::BaseField>(rng)];
-    sw_points_ops::<P>(out, cd, &sub[..3], &lam, true);
-    // the rest: affine in all modes, projective (rescaled) in two
-    for a in sub[3..].iter().chain(other.iter()) {
+    // subgroup points and curve points outside the subgroup alternate, so that a finite budget of
+    // checked-mode lines is spread over both kinds: affine in all modes, projective (rescaled) in two
+    let mut order: Vec<sw::Affine<P>> = Vec::new();
+    for i in 0..sub.len().max(other.len()) {
+        if i < sub.len() { order.push(sub[i]); }
+        if i < other.len() { order.push(other[i]); }
+    }
+    for a in order.iter() {
         for (c, v) in MODES { op_prt(out, cd, a, c, v); }
         let q = sw_rescale(&sw::Projective::<P>::from(*a), lam[0]);
         op_prt(out, cd, &q, Compress::Yes, Validate::Yes);
         op_prt(out, cd, &q, Compress::No, Validate::No);
     }
+    // every projective mode and the non-canonical identities for the first three (what is left of the budget)
+    sw_points_ops::<P>(out, cd, &sub[..3], &lam, true);
     sw_offcurve_ops::<P>(out, cd, &sub[..4]);
 }
-fn ship_te<P: te::TECurveConfig>(out: &mut Out, rng: &mut Rng, n: usize) {
+fn ship_te<P: te::TECurveConfig>(out: &mut Out, rng: &mut Rng, n: usize, budget: i64) {
+    set_budget(budget);
     let fd = fdesc::<P::BaseField>("_");
     let cd = te_desc::<P>(&fd);
     let (sub, other) = te_sample::<P>(rng, n);
     let lam = vec![rand_field::<P::BaseField>(rng)];
-    te_points_ops::<P>(out, &fd, &sub[..3], &lam);
-    for a in sub[3..].iter().chain(other.iter()) {
+    let mut order: Vec<te::Affine<P>> = Vec::new();
+    for i in 0..sub.len().max(other.len()) {
+        if i < sub.len() { order.push(sub[i]); }
+        if i < other.len() { order.push(other[i]); }
+    }
+    for a in order.iter() {
         for (c, v) in MODES { op_prt(out, &cd, a, c, v); }
         let q = te_rescale(&te::Projective::<P>::from(*a), lam[0]);
         op_prt(out, &cd, &q, Compress::Yes, Validate::Yes);
         op_prt(out, &cd, &q, Compress::No, Validate::No);
     }
+    te_points_ops::<P>(out, &fd, &sub[..3], &lam);
     te_offcurve_ops::<P>(out, &fd, &sub[..4]);
 }
 
@@ -243,11 +258,13 @@ fn main() {
         toy_te::<TE257A>(&mut out, "TE257A", 236, th);
     }
     if want("ship") {
-        ship_sw::<bls12_381::g1::Config>(&mut out, &mut rng, if th { 40 } else { 3 }, "_", None);
-        ship_sw::<secp256k1::Config>(&mut out, &mut rng, if th { 40 } else { 3 }, "_", None);
-        ship_sw::<mnt4_753::g1::Config>(&mut out, &mut rng, if th { 10 } else { 1 }, "_", None);
-        ship_sw::<bls12_381::g2::Config>(&mut out, &mut rng, if th { 30 } else { 3 }, &g2_tower(), Some(&g2_h1()));
-        ship_te::<ed_on_bls12_381::EdwardsConfig>(&mut out, &mut rng, if th { 40 } else { 3 });
+        let big = i64::MAX;
+        ship_sw::<bls12_381::g1::Config>(&mut out, &mut rng, if th { 40 } else { 3 }, "_", None, if th { big } else { 11 });
+        ship_sw::<secp256k1::Config>(&mut out, &mut rng, if th { 40 } else { 3 }, "_", None, if th { big } else { 16 });
+        ship_sw::<mnt4_753::g1::Config>(&mut out, &mut rng, if th { 10 } else { 1 }, "_", None, if th { big } else { 4 });
+        ship_sw::<bls12_381::g2::Config>(&mut out, &mut rng, if th { 30 } else { 3 }, &g2_tower(), Some(&g2_h1()), if th { big } else { 11 });
+        ship_te::<ed_on_bls12_381::EdwardsConfig>(&mut out, &mut rng, if th { 40 } else { 3 }, if th { big } else { 12 });
+        set_budget(big);
     }
     out.flush();
     eprintln!("c09: {} lines", out.count);
